@@ -47,7 +47,7 @@ ASSUMPTIONS = [
 TOLERANCES = {
     "largest-overlap": 1e-13,
     "margin-threshold": "1e-12 + 4*ulp(max coordinate)/min radius",
-    "voxel-volume": "rel. error <= 1.25*sqrt(3)*h*S/V (volume of the layer "
+    "voxel-volume": "rel. error <= 1.5*sqrt(3)*h*S/V (volume of the layer "
                     "of cells that can straddle the surface)",
 }
 TIMEOUT = 180
@@ -773,7 +773,7 @@ def _ellipsoid_area_upper(a, b, c):
 
 
 def _vol_bound(h, S, V):
-    return 1.25 * math.sqrt(3.0) * h * S / V
+    return 1.5 * math.sqrt(3.0) * h * S / V
 
 
 def _run_voxel(case, ck):
